@@ -107,6 +107,7 @@ class Rig:
         self.fake.fault = self._dbapi_fault
         self.fake.emit = self._emit
         self.uac = []             # use-after-close events
+        self.dead_calls = 0
         self._orig_connect = self.fake.connect
         self.fake.connect = self._connect
         self.listener_calls = 0
@@ -151,6 +152,16 @@ class Rig:
 
     def conns(self):
         return list(self.fake.connections.values())
+
+    def kill_all(self):
+        """Server restart / network partition: every DBAPI connection open right now is dead
+        from here on (idle ones die silently: only using them shows it)."""
+        n = 0
+        for c in self.open_conns():
+            if not getattr(c, "dead", False):
+                c.dead = True
+                n += 1
+        return n
 
     def open_conns(self):
         return [c for c in self.conns() if c.close_calls == 0]
@@ -202,6 +213,13 @@ class Rig:
             return self.spec["closed"](self.fake)
         if ev.kind not in FAULTABLE:
             return None
+        if ev.conn is not None and ev.kind != "close":
+            c = self.fake.connections.get(ev.conn)
+            if c is not None and getattr(c, "dead", False):
+                # the server side of this connection is gone (kill_all): every call on it
+                # fails the way the driver reports a lost connection; not a fault *point*
+                self.dead_calls += 1
+                return self.spec["disconnect"](self.fake)
         kind = self._point(f"dbapi:{ev.kind}", self.DBAPI_KINDS)
         if kind:
             ev["fault_kind"] = kind
